@@ -327,6 +327,8 @@ func (u *UseListOrderBB) String() string {
 func (m *Module) AssignGlobalIDs() error {
 	m.mu.Lock()
 	defer m.mu.Unlock()
+	verifTrace("lock", m, 0, 0)
+	defer verifTrace("unlock", m, 0, 0)
 	id := int64(0)
 	setName := func(n namedVar) error {
 		if n.IsUnnamed() {
@@ -335,6 +337,7 @@ func (m *Module) AssignGlobalIDs() error {
 				got := n.ID()
 				return errors.Errorf("invalid global ID, expected %s, got %s", enc.GlobalID(want), enc.GlobalID(got))
 			}
+			verifTrace("setid", n, n.ID(), id)
 			n.SetID(id)
 			id++
 		}
@@ -372,6 +375,8 @@ func (m *Module) AssignGlobalIDs() error {
 func (m *Module) AssignMetadataIDs() error {
 	m.mu.Lock()
 	defer m.mu.Unlock()
+	verifTrace("lock", m, 1, 0)
+	defer verifTrace("unlock", m, 1, 0)
 	// Index used IDs.
 	used := make(map[int64]bool)
 	for _, md := range m.MetadataDefs {
@@ -401,6 +406,7 @@ func (m *Module) AssignMetadataIDs() error {
 			continue
 		}
 		newID := nextID()
+		verifTrace("setid", md, id, newID)
 		md.SetID(newID)
 	}
 	return nil
